@@ -2,6 +2,7 @@ import Driver.Vectored
 import Driver.Sinks
 import Driver.Global
 import Driver.Histogram
+import Driver.MetricsRs
 /-!
 `driver <engine>`: reads one request per line on stdin, prints one reply per line.
 Every engine is a pure function `String → String` of the request line (stateful models receive the
@@ -12,7 +13,8 @@ def engines : List (String × (String → String)) := [
   ("vectored", Driver.Vectored.handle),
   ("sinks", Driver.Sinks.handle),
   ("global", Driver.Global.handle),
-  ("histogram", Driver.Histogram.handle)
+  ("histogram", Driver.Histogram.handle),
+  ("metricsrs", Driver.MetricsRs.handle)
 ]
 
 partial def loop (h : IO.FS.Stream) (out : IO.FS.Stream) (f : String → String) : IO Unit := do
